@@ -25,6 +25,11 @@ USER_REPARAMETERISATIONS = {"x": {"reparameterisation": "rescaletobounds", "upda
                             "y": {"reparameterisation": "rescaletobounds"}}
 USER_FLOW_CONFIG = dict(n_blocks=2, n_neurons=4, n_layers=1)
 USER_TRAINING_CONFIG = dict(max_epochs=5, patience=5, batch_size=50)
+# an odd number of coupling transforms (any per-process state that alternates per transform comes back different for the
+# second flow built in a process: seeded change C14-gA) and the documented OLD-STYLE configuration, training keys inside
+# flow_config (split by flowmodel.utils.update_config: seeded change C14-gB)
+USER_FLOW_CONFIG_ODD = dict(n_blocks=3, n_neurons=4, n_layers=1)
+USER_FLOW_CONFIG_OLD = dict(model_config=dict(n_blocks=2, n_neurons=4, n_layers=1), max_epochs=5, patience=5, batch_size=50)
 USER_INS_FLOW_CONFIG = dict(n_blocks=2, n_neurons=8, n_layers=1)
 USER_INS_TRAINING_CONFIG = dict(max_epochs=8, patience=5, batch_size=100)
 
@@ -134,6 +139,14 @@ def _pool_kwargs(cfg, model):
     raise ValueError(p)
 
 
+def _flow_kwargs(cfg):
+    kind = cfg.get("flowcfg", "user")
+    if kind == "old":
+        return dict(flow_config=USER_FLOW_CONFIG_OLD)
+    tc = USER_TRAINING_CONFIG if cfg.get("max_epochs") is None else dict(max_epochs=cfg["max_epochs"], patience=5, batch_size=50)
+    return dict(flow_config=USER_FLOW_CONFIG_ODD if kind == "odd" else USER_FLOW_CONFIG, training_config=tc)
+
+
 def run_config(cfg, model=None):
     """one complete run of the real sampler; returns the digest dictionary"""
     import logging
@@ -166,9 +179,7 @@ def run_config(cfg, model=None):
         if cfg["sampler"] == "ns":
             fs = FlowSampler(
                 model, nlive=cfg.get("nlive", 50), max_iteration=cfg.get("max_iteration", 200),
-                flow_config=USER_FLOW_CONFIG,
-                training_config=USER_TRAINING_CONFIG if cfg.get("max_epochs") is None else
-                dict(max_epochs=cfg["max_epochs"], patience=5, batch_size=50),
+                **_flow_kwargs(cfg),
                 training_frequency=cfg.get("training_frequency", 50), maximum_uninformed=cfg.get("maximum_uninformed", 50),
                 cooldown=25, **({} if cfg.get("poolsize", 100) is None else {"poolsize": cfg.get("poolsize", 100)}),
                 **({"latent_prior": cfg["latent_prior"]} if cfg.get("latent_prior") else {}), **cfg.get("extra", {}), **common)
